@@ -418,9 +418,7 @@ fn check_chain(c: &ChainCase, obs: &mut Obs) -> Verdict {
             }
             ChainOp::Adjust(i, j) => {
                 let (i, j) = (i as usize % maps.len(), j as usize % maps.len());
-                if i == j {
-                    continue;
-                }
+                let alias = i == j;
                 let pre_i = raw_tokens(&maps[i]);
                 let pre_j = raw_tokens(&maps[j]);
                 // domain: adjustment tokens all have a source; payload index fits u8; tie groups small
@@ -433,6 +431,14 @@ fn check_chain(c: &ChainCase, obs: &mut Obs) -> Verdict {
                     obs.class("chain-stopped(size or tie group beyond what the reference enumerates)");
                     break;
                 }
+                // aliasing: a map composed with (a clone of) itself - the clone is parked in the pool for this step
+                let j = if alias {
+                    let copy = maps[i].clone();
+                    maps.push(copy);
+                    maps.len() - 1
+                } else {
+                    j
+                };
                 let before = obs_map(&maps[i]);
                 // the adjustment is passed by reference to the very object that stays in the pool
                 let (head, tail) = maps.split_at_mut(i.max(j));
@@ -480,12 +486,18 @@ fn check_chain(c: &ChainCase, obs: &mut Obs) -> Verdict {
                 if used_as_adj[i] {
                     adjusted_after_use[i] = true;
                 }
-                if adjusted_after_use[j] {
-                    obs.class("adjustment-reused-after-being-adjusted-itself");
-                    obs.nontrivial();
+                if !alias {
+                    if adjusted_after_use[j] {
+                        obs.class("adjustment-reused-after-being-adjusted-itself");
+                        obs.nontrivial();
+                    }
+                    used_as_adj[j] = true;
                 }
-                used_as_adj[j] = true;
                 obs.class_if(dup, "chain-step-with-duplicate-positions");
+                if alias {
+                    maps.pop();
+                    obs.class("map-composed-with-a-clone-of-itself");
+                }
             }
         }
     }
